@@ -52,6 +52,31 @@ CHECKS = {
         design="7/C17",
         technique="contracts on the real forward() methods: unbounded fold-loop VCs from the AST (z3, uninterpreted stages); execution with uninterpreted stubs; thread pool replaced by its contract with exhaustive admissible completion orders",
     ),
+    "C05": dict(
+        text="demod(mod(bits)) == bits and the symbol count are discharged for ALL bit sequences of the enumerated lengths (1..3 symbols; all ordered pairs/triples for schemes with memory) by symbolic execution of the real modulator (table lookup = ITE over the real constellation buffer) and demodulator (nearest point decided on exact rationals of the stored floats), for every scheme/order/labelling/normalisation configuration and 1-D/batched layouts; the dependency obligations (symbol i depends on bit group i only; the decision is per symbol, for all received y) extend the claim from the enumerated lengths to long sequences. DPSK hard decisions use atan2: bits are concretised by forking (still all bit patterns). Registry: ground. Long sequences: bounded.",
+        note="Trusted: vk engine; floats as reals with exact float32 table values. Known findings (pinned by tests): pi/4-QPSK treats short 1-D inputs as symbol indices and returns indices from 1-D hard demodulation.",
+        design="7/C05",
+        technique=E2,
+    ),
+    "C14": dict(
+        text="Constellations: all admissible configurations are finitely many, so 2^b distinct points, 2^b distinct labels, unit average energy (1e-6) and the Gray nearest-neighbour property are ground obligations evaluated exhaustively on the exact rational values of the real tables; forward(bit_patterns[i]) == constellation[i] links labels to the points the modulator emits. Gray utilities: binary_to_gray / gray_to_binary verified from their real source by the E1 VC generator in BV(64) mode (loops unrolled 65 times with unwinding assertion): mutual inverses, reflected-code spec, consecutive integers at Hamming distance one, non-negativity, ValueError for negatives - for ALL n < 2^64; the hard-coded 1023/1365 pair (pinned by a test) is a known finding and every other input is proved by the */other_inputs obligations. Array forms: bounded.",
+        note="Trusted: vk.e1 BV encoding of Python ints below 2^64, vk.ground, exact rational reading of float32 tables with the stated tie window. Bound: 2^64 for the Gray utilities (unbounded naturals not claimed).",
+        design="7/C14",
+        technique="ground obligations on the real tables (exhaustive); contract-based VCs from the real AST in BV(64) mode discharged by z3 for the Gray utilities",
+        engine="vk-E1-vcgen",
+    ),
+    "C16": dict(
+        text="forward of BitErrorRate / BlockErrorRate (+SER/FER aliases) and the StandardMetrics helpers == exact counts for ALL binary tensor pairs of the enumerated shapes/block sizes (symbolic bits; hence symmetric, zero iff equal, BER <= BLER <= min(1, B.BER)); non-divisor block sizes rejected. Streaming form as a data structure with abstract view (T,E): update proved for a SYMBOLIC prior state and symbolic batch ((T,E) -> (T+n, E+d), frame), compute and reset likewise; with the fold lemma this gives partition/order independence for histories of any length. Exhaustive short histories are a bounded cross-check.",
+        note="Trusted: vk engine, lemma L-fold. Floats as reals (counter rounding above 2^24 not modelled).",
+        design="7/C16",
+        technique=E2 + "; data-structure contract with symbolic prior state + induction lemma",
+    ),
+    "C20": dict(
+        text="For every encoder (forward, inverse_encode, calculate_syndrome; all catalogue codes) and the E2-reachable decoders (syndrome lookup, brute-force ML): f(batch)[i] == f(member i alone) for ALL member values, batches of 2-3 members and nested (2,1) leading dimensions; (B, 2n) either equals per-block evaluation or raises; a repeated call returns identical terms; inputs unmodified - discharged by symbolic execution (path-complete). Berlekamp-Massey and majority-logic decoding: bounded stand-in (random batches of 1..6 incl. special members, permutations, layouts). Modulators/demodulators/constraints: their batched-layout and per-symbol/per-item dependency clauses are part of C05/C06/C08.",
+        note="Trusted: vk engine. Bound: configuration grid, batch sizes 2-3.",
+        design="7/C20",
+        technique=E2,
+    ),
 }
 
 NOT_YET = {}
